@@ -270,6 +270,18 @@ func (b *e2eBase) scenario(committee []int, msg []byte, tally *engine.Tally) {
 	tk := w.App.TSSKeeper
 	sid := tss.SigningID(tk.GetSigningCount(ctx))
 	var staleSigs map[int]tss.Signature
+	// variant: the shares arrive in the very block in which the attempt's signing period ends (period 1: one block after
+	// creation); aggregation and expiry handling of the same signing then fall into the same block end
+	late := len(msg) == 32
+	if late {
+		next, br := w.Block(ctx, 1, 3*time.Second)
+		if br.Halt != "" {
+			fail("block-halt", "%s", br.Halt)
+			return
+		}
+		ctx = next
+		tally.Saw("shares-in-expiry-block")
+	}
 	signing, err := tk.GetSigning(ctx, sid)
 	if err != nil {
 		fail("C03/signing-missing", "%v", err)
@@ -602,7 +614,7 @@ func init() {
 			}
 			r.Required = []string{"lagrange-done", "lagrange-reject", "group-signature-verified", "good-share-accepted", "bad-share-rejected:scalar-plus-one",
 				"bad-share-rejected:nonce-point-plus-G", "bad-share-rejected:different-message", "bad-share-rejected:lagrange-of-other-committee",
-				"bad-share-rejected:share-under-other-member-id", "bad-share-rejected:unassigned-nonce", "bad-share-rejected:other-members-key-share", "bad-share-rejected:previous-attempt-share"}
+				"bad-share-rejected:share-under-other-member-id", "bad-share-rejected:unassigned-nonce", "bad-share-rejected:other-members-key-share", "bad-share-rejected:previous-attempt-share", "shares-in-expiry-block"}
 			deadline := r.Deadline(4*time.Minute, 40*time.Minute)
 			runLagrange(r, deadline)
 			runE2E(r, deadline)
